@@ -1254,6 +1254,11 @@ class Lowerer:
                     pass
                 del self.temps[mark3:]
                 self.rule('local array initialiser not lowered -> elements arbitrary')
+            if static:
+                # a function-local static array WITHOUT brace initialiser keeps its content between calls: unit-level array
+                self.static_locals.append('static %s %s_%s[%s];' % (etn, self.cur.cname, name, arr.group(1)))
+                self.renames[v['id']] = '%s_%s' % (self.cur.cname, name)
+                return ''
             return ind + '%s %s[%s];\n' % (etn, name, arr.group(1))
         if static and t.is_builtin and init and init[0]['kind'] in ('CXXBoolLiteralExpr', 'IntegerLiteral'):
             g = '%s_%s' % (self.cur.cname, name)
